@@ -29,7 +29,14 @@ def run(ctx, args):
     sites = {}
     fatal = None
     for i in range(2 if q else 6):
-        rc, out = ctx.run_driver("TestVfStress", env={"VERIF_MODE": "race", "VERIF_SEED": ctx.seed + i, "VERIF_PER": 250 if q else 1200}, race=True, timeout=1500, allow_fail=True)
+        for attempt in (0, 1):
+            try:
+                rc, out = ctx.run_driver("TestVfStress", env={"VERIF_MODE": "race", "VERIF_SEED": ctx.seed + i, "VERIF_PER": 250 if q else 1200}, race=True, timeout=1500, allow_fail=True)
+                break
+            except Infra as e:      # a run that does not end on a loaded machine is retried once; never a verdict
+                if attempt or "timed out" not in str(e):
+                    raise
+                print("NOTE: race run %d timed out - retried once" % i)
         runs += 1
         if "VF-INFRA" in out:
             raise Infra("stress driver self-check failed:\n" + out[-3000:])
